@@ -4,7 +4,7 @@
 # and prints DETECTED / MISSED per property. The scratch copy is removed afterwards.
 export GOFLAGS=-mod=mod GOPROXY=off GOSUMDB=off GOTOOLCHAIN=local; unset GOWORK
 TEST=0; if [ "$1" = "-t" ]; then TEST=1; shift; fi
-PATCH="$1"; shift
+PATCH="$(realpath "$1")"; shift
 HERE="$(cd "$(dirname "$0")/.." && pwd)"
 TMP=$(mktemp -d /tmp/dawnlint-mut.XXXXXX)
 trap 'rm -rf "$TMP"' EXIT
@@ -13,7 +13,7 @@ if ! ( cd "$TMP" && patch -p1 -s --no-backup-if-mismatch < "$PATCH" ) >/dev/null
 if ! ( cd "$TMP" && go build ./... && go vet -vettool=/bin/true ./... >/dev/null 2>&1 || true ) 2>"$TMP/.builderr"; then echo "$(basename $PATCH): DOES-NOT-COMPILE"; head -5 "$TMP/.builderr"; exit 4; fi
 if ! ( cd "$TMP" && go build ./... ) 2>"$TMP/.builderr"; then echo "$(basename $PATCH): DOES-NOT-COMPILE"; head -5 "$TMP/.builderr"; exit 4; fi
 if [ $TEST = 1 ]; then
-  if ! ( cd "$TMP" && go test -vet=off -count=1 ./... ) >"$TMP/.testout" 2>&1; then echo "$(basename $PATCH): FAILS-TESTS"; grep -E "^(--- FAIL|FAIL|panic)" "$TMP/.testout" | head -5; exit 5; fi
+  if ! ( cd "$TMP" && go test -vet=off -count=1 -timeout 120s ./... ) >"$TMP/.testout" 2>&1; then echo "$(basename $PATCH): FAILS-TESTS"; grep -E "^(--- FAIL|FAIL|panic)" "$TMP/.testout" | head -5; exit 5; fi
 fi
 rc=0
 for P in "$@"; do
